@@ -66,6 +66,9 @@ var c19Forms = []c19Form{
 	{Name: "tag.delete", API: "tag.delete", Mut: true, Rep: true, Code: `tag.delete(C.DEL); out("tag.delete done")`},
 	{Name: "manifest:delete/head", API: "manifest.delete", Mut: true, Rep: true, Code: `local m = manifest.head(C.DEL3); m:delete(); out("m:delete done")`},
 	{Name: "manifest:delete/list", API: "manifest.delete", Mut: true, Code: `local m = manifest.getList(C.DEL3); m:delete(); out("m:delete list done")`},
+	// the same through references that already carry the digest (repo@digest string, and reference.new + r:digest)
+	{Name: "manifest:delete/digest-string", API: "manifest.delete", Mut: true, Code: `local m = manifest.head(C.REPO .. "@" .. DIG3); m:delete(); out("m:delete by digest string done")`},
+	{Name: "manifest:delete/ref-digest", API: "manifest.delete", Mut: true, Code: `local r = reference.new(C.REPO .. ":v3"); r:digest(DIG3); local m = manifest.getList(r); m:delete(); out("m:delete ref digest done")`},
 	{Name: "manifest.put", API: "manifest.put", Mut: true, Rep: true, Code: `local m = manifest.get(C.SRC); manifest.put(m, C.REPO .. ":c19put-" .. C.T); out("manifest.put done")`},
 	{Name: "manifest:put", API: "manifest.put", Mut: true, Code: `local m = manifest.getList(C.SRC); m:put(C.REPO .. ":c19mput-" .. C.T); out("m:put done")`},
 	{Name: "manifest:put/export", API: "manifest.put", Mut: true, Tier: 1, Code: `local m = manifest.get(C.SRC):export(); m:put(C.NEWREPO .. ":c19eput-" .. C.T); out("m:export():put done")`},
@@ -161,6 +164,7 @@ type c19Paths struct {
 	In      string
 	Out     string
 	Layer   string
+	Dig3    string
 }
 
 const c19LuaHelpers = `
@@ -188,7 +192,7 @@ end
 
 func c19Prelude(p c19Paths) string {
 	var sb strings.Builder
-	fmt.Fprintf(&sb, "local HOST = %q\nlocal IN = %q\nlocal OUT = %q\nlocal LAYER = %q\n", p.Host, p.In, p.Out, p.Layer)
+	fmt.Fprintf(&sb, "local HOST = %q\nlocal IN = %q\nlocal OUT = %q\nlocal LAYER = %q\nlocal DIG3 = %q\n", p.Host, p.In, p.Out, p.Layer, p.Dig3)
 	sb.WriteString(c19LuaHelpers)
 	fmt.Fprintf(&sb, "local CR = {REPO = %q, XREPO = %q, NEWREPO = %q, REPO2 = %q, T = \"s\"}\n", p.RegRepo, p.LayRepo, p.RegNew, p.RegBlob)
 	fmt.Fprintf(&sb, "local CL = {REPO = %q, XREPO = %q, NEWREPO = %q, REPO2 = %q, T = \"s\"}\n", p.LayRepo, p.RegRepo, p.LayNew, p.LayBlob)
